@@ -226,6 +226,10 @@ def unparse_Constant(node: Constant, qm: typing.Literal["'", '"']) -> unparse_ge
     if isinstance(node.value, str):
         value = get_unescaped_str(node.value, qm)
         return f"{qm}{value}{qm}"
+    if isinstance(node.value, (float, complex)):
+        # repr() spells infinity as the *name* "inf"; use an overflowing
+        # literal instead (same substitution as ast.unparse)
+        return repr(node.value).replace("inf", "1e309")
     return repr(node.value)
     yield
 
